@@ -107,6 +107,17 @@ fn make_doc(format: &str, i: usize, size: usize) -> Vec<u8> {
 			d.extend_from_slice(tail.as_bytes());
 			d
 		}
+		"yamlb" => {
+			// UTF-8 behind a byte order mark; the first document implicit (no `---`), flow mappings of one line each (a block
+			// mapping behind a byte order mark is refused by the parser: the mark counts as a column)
+			let head = if index == 0 { format!("\u{feff} {{i: {}, p: '", i) } else { format!("--- {{i: {}, p: '", i) };
+			let tail = "'}\n";
+			let pad = size - head.len() - tail.len();
+			let mut d = head.into_bytes();
+			d.extend(std::iter::repeat(b'y').take(pad));
+			d.extend_from_slice(tail.as_bytes());
+			d
+		}
 		"yaml" => {
 			let head = format!("---\ni: {}\np: '", i);
 			let tail = "'\n";
@@ -133,6 +144,8 @@ struct GenReader {
 	format: String,
 	n: usize,
 	size: usize,
+	first: usize, // size of document 0 (the others have `size`)
+	out_first: usize, // output bytes of document 0
 	packet: usize,
 	pos: usize, // bytes delivered
 	cur: Vec<u8>,
@@ -147,10 +160,11 @@ impl Read for GenReader {
 	fn read(&mut self, buf: &mut [u8]) -> io::Result<usize> {
 		self.reads.set(self.reads.get() + 1);
 		// documents completely delivered vs completely written, at the moment more input is asked for
-		let delivered_docs = self.pos / self.size;
+		let delivered_docs = if self.pos < self.first { 0 } else { 1 + (self.pos - self.first) / self.size };
 		let out_doc = self.out_doc.get();
 		if out_doc > 0 {
-			let written_docs = self.written.get() / out_doc;
+			let w = self.written.get();
+			let written_docs = if w < self.out_first { 0 } else { 1 + (w - self.out_first) / out_doc };
 			let lag = delivered_docs as i64 - written_docs as i64;
 			if lag > self.max_lag.get() {
 				self.max_lag.set(lag);
@@ -158,17 +172,20 @@ impl Read for GenReader {
 		} else if delivered_docs >= 3 && self.written.get() == 0 {
 			self.max_lag.set(self.max_lag.get().max(delivered_docs as i64));
 		}
-		let total = self.n * self.size;
-		if self.pos >= total || buf.is_empty() {
+		let total = self.first + (self.n - 1) * self.size;
+		if self.n == 0 || self.pos >= total || buf.is_empty() {
 			return Ok(0);
 		}
-		let idx = self.pos / self.size;
+		let (idx, off, len) = if self.pos < self.first {
+			(0, self.pos, self.first)
+		} else {
+			(1 + (self.pos - self.first) / self.size, (self.pos - self.first) % self.size, self.size)
+		};
 		if idx != self.cur_index || self.cur.is_empty() {
-			self.cur = make_doc(&self.format, idx, self.size);
+			self.cur = make_doc(&self.format, idx, len);
 			self.cur_index = idx;
 		}
-		let off = self.pos % self.size;
-		let n = buf.len().min(self.packet).min(self.size - off);
+		let n = buf.len().min(self.packet).min(len - off);
 		buf[..n].copy_from_slice(&self.cur[off..off + n]);
 		self.pos += n;
 		Ok(n)
@@ -196,6 +213,7 @@ pub fn run_stream(req: &Value) -> Value {
 	let size = (req["size"].as_u64().unwrap_or(64) as usize).max(48);
 	let packet = (req["packet"].as_u64().unwrap_or(size as u64) as usize).max(1);
 	let fmt_name = if format.starts_with("yaml") { "yaml".to_string() } else { format.clone() };
+	let first_req = req.get("first").and_then(Value::as_u64).map(|v| v as usize);
 	let size = if format == "yaml16" { size.max(96) / 2 * 2 } else if format == "yaml32" { size.max(192) / 4 * 4 } else if format == "yamlx" { size.max(80) } else { size };
 	let from = if req["detect"].as_bool().unwrap_or(false) { None } else { crate::session::parse_format(&fmt_name) };
 	// output size of one document, from a one-document run
@@ -205,12 +223,30 @@ pub fn run_stream(req: &Value) -> Value {
 		let _ = xt::translate_slice(&doc, crate::session::parse_format(&fmt_name), to, &mut out);
 		out.len()
 	};
+	// a first document of another size (a large document followed by small ones)
+	let first = first_req.unwrap_or(size).max(size);
+	let one_first = if first == size {
+		one
+	} else {
+		let mut out = vec![];
+		let doc = make_doc(&format, 0, first);
+		let _ = xt::translate_slice(&doc, crate::session::parse_format(&fmt_name), to, &mut out);
+		out.len()
+	};
+	let one = if first == size {
+		one
+	} else {
+		let mut out = vec![];
+		let doc = make_doc(&format, 1, size);
+		let _ = xt::translate_slice(&doc, crate::session::parse_format(&fmt_name), to, &mut out);
+		out.len()
+	};
 	let written = Rc::new(Cell::new(0));
 	let out_doc = Rc::new(Cell::new(one));
 	let max_lag = Rc::new(Cell::new(0i64));
 	let reads = Rc::new(Cell::new(0usize));
 	let reader = GenReader {
-		format: format.clone(), n, size, packet, pos: 0, cur: vec![], cur_index: usize::MAX,
+		format: format.clone(), n, size, first, out_first: one_first, packet, pos: 0, cur: vec![], cur_index: usize::MAX,
 		written: written.clone(), out_doc: out_doc.clone(), max_lag: max_lag.clone(), reads: reads.clone(),
 	};
 	let base = LIVE.load(Ordering::Relaxed);
@@ -223,5 +259,5 @@ pub fn run_stream(req: &Value) -> Value {
 		Err(_) => (false, "panic".to_string()),
 	};
 	json!({"id": req["id"], "ok": ok, "err": err, "peak_over_base": peak.saturating_sub(base), "written": written.get(),
-	       "expected_written": one * n, "out_doc": one, "max_lag_docs": max_lag.get(), "reads": reads.get()})
+	       "expected_written": if n == 0 { 0 } else { one_first + one * (n - 1) }, "out_doc": one, "max_lag_docs": max_lag.get(), "reads": reads.get()})
 }
